@@ -129,6 +129,11 @@ def solve_slot(ctx, chk, rule, slot, field, after, what):
         return
     node = sx.loops[base_t[1]].node
     try:
+        encl = node
+        while encl is not None and encl is not f.node and not isinstance(encl, (ast.FunctionDef, ast.Lambda)):
+            encl = getattr(encl, "parent", None)
+        if encl is not f.node:
+            raise AnalysisError("inside a local function: evaluated where it is called")
         cfg.stmt_of(node)
     except AnalysisError:
         # the list is built inside an inlined helper: take the statement of solve() that defines the returned variable
@@ -138,6 +143,8 @@ def solve_slot(ctx, chk, rule, slot, field, after, what):
             defs = cfg.defs_reaching(rets[0], rets[0].value.elts[slot].id)
             if len(defs) == 1:
                 node = next(iter(defs))
+        elif len(rets) == 1 and isinstance(rets[0].value.elts[slot], ast.Call):
+            node = rets[0]                  # computed in the return statement itself
         if node is None:
             chk.undecided(rule, where, "solve()[%d] (%s): the statement that computes it was not located" % (slot, what))
             return
@@ -152,6 +159,9 @@ def solve_slot(ctx, chk, rule, slot, field, after, what):
         return
     if cfg.dominates(calls[0], node) and elt == ("attr", ("e",), field) and flt == TRUE and good_src and whole:
         chk.ok(rule, f.where(node), "solve()[%d] (%s) = [state.%s for state in state_list], read after %s()" % (slot, what, field, after))
+    elif cfg.dominates(calls[0], node) and flt == TRUE and whole and mentions(elt, lambda x: x[0] in ("mcall", "apply", "res", "compr") or (x[0] == "call" and x[1] not in ("round", "float", "int", "abs"))):
+        # the value goes through a method / helper of the node (a record of its estimates, an accessor): not followed here
+        chk.undecided(rule, f.where(node), "%s are reported as `%s`: read through a call that is not resolved to the field %s" % (what, show(elt)[:80], field))
     else:
         chk.violation(rule, f.where(node), "%s are reported as `%s` over `%s`%s%s" % (
             what, show(elt), show(source), "" if flt == TRUE else " where " + show(flt), "" if cfg.dominates(calls[0], node) else " BEFORE %s()" % after),
@@ -423,6 +433,11 @@ def r4_restriction_argument(ctx, chk, rule="C02.4"):
     st = ("elem", L.id)
     idx_ok = (("pos", L.id), ("attr", st, "idx"))
     # (a `continue` skips the rest of one iteration, not a state: what it skips shows in the condition of the call below)
+    if L.source != slist and (L.source[0] in ("compr", "res", "apply") or (L.source[0] == "call" and L.source[1] in ("filter", "enumerate", "zip", "map")
+                                                                          and mentions(L.source, lambda x: x == slist))) and not L.has_break and not L.has_return:
+        # the Player-1 states (or their positions) selected first, restricted afterwards: the selection is not followed here
+        chk.undecided(rule, g.where(L.node), "prune_reachability iterates `%s`, a selection computed from the state list: that it holds every Player-1 state is not resolved" % show(L.source)[:80])
+        return
     if L.source != slist or not L.whole or L.has_break or L.has_return or len(cs) != 1:
         chk.violation(rule, g.where(L.node), "prune_reachability does not restrict every Player-1 state of the whole list", expected="for idx, state in enumerate(self.state_list)",
                       found=norm_stmt(L.node), construct="prune_reachability coverage")
